@@ -60,6 +60,9 @@ READ_STEPS = {
     "if self.channel_log:\n    self.channel_log.write(buf)": 4,
     "if b'\\x1b' in buf.lower():\n    buf = self._strip_ansi(buf=buf)": 5,
     "return buf": 6,
+    # since fix a8860f6 (C02): a trailing partial escape sequence is carried over to the next read — AFTER the record
+    # and the channel-log write, so both still see exactly the bytes read
+    "buf = self._hold_back_partial_ansi(buf=buf)": 7,
 }
 
 
